@@ -62,7 +62,8 @@ def check_colons_absent(rep, text):
 
 PREAMBLES = ['Parcel ZZTOPAZ', 'Also the following:', 'Tract KKBARIUM of the survey']
 LEADS = ['That part of the NE/4 of', 'A strip of land 100 feet wide across', 'All that portion of', 'The railroad right-of-way through']
-TRAILS = ['lying within the right-of-way', 'lying north of the river', 'described by metes and bounds as follows', 'containing 40 acres']
+TRAILS = ['lying within the right-of-way', 'lying north of the river', 'described by metes and bounds as follows', 'containing 40 acres',
+          'only', 'east', 'N2N2', 'north', 'RoW 2']
 
 
 def check_sec_within(rep, r):
